@@ -264,7 +264,11 @@ def evaluate(case):
         elif ra.ok and case["path"] != "pickle":
             # inputs differ by the JSON precision (1e-15 absolute): cross-run tolerance policy
             from ..compare import compare_nets
-            for d_ in compare_nets(a2, b2, ptol=1e-7, ttol=1e-5, mrel=1e-6, drel=1e-5, mabs=1e-7)[:1]:
+            # with the default solver tolerances (tol_p = tol_m = 1e-5) the two runs may stop one Newton step apart when an
+            # error is close to its threshold, so they agree to the solver tolerance only (same policy as C04's differential)
+            tolkw = dict(ptol=1e-7, ttol=1e-5, mrel=1e-6, drel=1e-5, mabs=1e-7) if "tol_m" in opts else \
+                dict(ptol=1e-4, ttol=1e-2, mrel=1e-3, drel=1e-2, mabs=1e-4)
+            for d_ in compare_nets(a2, b2, **tolkw)[:1]:
                 f.append(Finding("pipeflow", "C15.pipeflow.results", d_))
         elif ra.ok:
             for t in [k for k in a2.keys() if k.startswith("res_") and isinstance(a2[k], pd.DataFrame)]:
